@@ -843,7 +843,7 @@ func (g *g) dquote() (string, string) {
 			b.WriteString(`\` + c)
 			ps = append(ps, skel.Quote(`\`, []string{skel.Lit(c)}))
 		case 2: // a backslash that stays
-			c := g.pick("dq_bs", "q", " ", "'", "a", "*")
+			c := g.pick("dq_bs", "q", " ", "'", "a", "*", "}", ")")
 			b.WriteString(`\` + c)
 			lit += `\` + c
 			openName = false
@@ -998,6 +998,14 @@ func (g *g) bracedParam(dq bool) (string, string) {
 			ps = append(ps, skel.CmdSubst(false, []string{skel.Cmd(skel.Simple(nil, []string{skel.Word([]string{skel.Lit("c")}), skel.Word([]string{skel.Lit("d")})}), nil)}))
 		case 5:
 			flush()
+			if g.chance("bp_inner_dq_pattern", 2) {
+				// a pattern operator inside double-quotes inside the word
+				pop := g.pick("bp_inner_pop", "#", "%", "##", "%%")
+				b.WriteString(`"${y` + pop + `c*}"`)
+				ps = append(ps, skel.Quote(`"`, []string{skel.Param(true, "y", pop, skel.Word([]string{skel.Lit("c*")}))}))
+				g.f("pattern_operator_inside_dquotes_inside_param_word")
+				break
+			}
 			b.WriteString(`"$y z"`)
 			ps = append(ps, skel.Quote(`"`, []string{skel.Param(false, "y", "", skel.Nil), skel.Lit(" z")}))
 		case 6:
@@ -1271,7 +1279,25 @@ func (g *g) heredoc(n string) string {
 	}
 	nl := []int{1, 2, 0, 3, 4}[g.ch.Intn(5, "hd_lines")]
 	for i := 0; i < nl; i++ {
-		k := g.ch.Intn(20, "hd_line")
+		k := g.ch.Intn(22, "hd_line")
+		if k == 20 {
+			// double-quotes inside the word of an expansion (then single-quotes in a later one are still text)
+			k = 0
+			if !h.Quoted {
+				flush()
+				ps = append(ps, skel.Param(true, "x", ":-", skel.Word([]string{skel.Quote(`"`, []string{skel.Lit("a")})})))
+				lit += " t\n"
+				body.WriteString(`${x:-"a"} t` + "\n")
+				g.f("heredoc_line_with_dquotes_inside_param_word")
+				continue
+			}
+		}
+		if k == 21 {
+			// a backslash in front of "}" outside every expansion is text
+			lit += `a\}b \)` + "\n"
+			body.WriteString(`a\}b \)` + "\n")
+			continue
+		}
 		line := ""
 		if k == 14 && h.Quoted {
 			k = 0
